@@ -16,7 +16,7 @@ RULE = ('a started ActiveObject (spied or not, instrumented or not, live spy/tra
         'bounded-progress form only. distinct_nontrivial = distinct context-switch sequences (projected on thread roles and locations) of '
         'runs with >= 2 posters or >= 1 handler post')
 CASES = {'quick': 800, 'thorough': 60000}
-BUDGET = {'quick': 50, 'thorough': 300}
+BUDGET = {'quick': 150, 'thorough': 300}
 REQUIRE = {'runs': 300, 'runs_with_racing_posters': 100, 'runs_with_live_output_on': 40, 'poster_between_token_put_and_append': 20, 'consumer_between_get_and_popleft': 20}
 ASSUME = ['"eventually" is restated as bounded progress under a fair suffix; unbounded liveness is out of reach of a finite run',
           'switches happen at line starts of the focus files and around (never inside) calls of real primitives']
